@@ -47,6 +47,8 @@ theorem chain_fix_layer (x : AnyObj) (os : List AnyObj) (ps : List LayerInfo) (r
     (hlen : region.length = Wire.sizeOf (semsAux ps (x :: os) (infos (x :: os)))) (io : Bytes)
     (hio : serializeInto (semsAux (liOfA x os :: ps) os (infos os)) (innerOf (semOfA ps x os) region) = .ok io)
     (hiol : io.length = sizeOfStack os)
+    (hnil : os = [] → io = []) (hraw : ∀ p, os = [.raw p] → io = p)
+    (hpos : ∀ y r, nextA os = .obj y r → 0 < io.length) (hnostp : ∀ s r, os ≠ .app (.stp s) :: r)
     (out : Bytes) (hser : serializeInto (semsAux ps (x :: os) (infos (x :: os))) region = .ok out)
     (n : String) (k : Nat) (hn : EntryName n x) (hk : PadCondN ps n x k)
     (x' : AnyObj) (inner : Inner) (hp : parseOne n (out ++ List.replicate k 0) = .ok (x', inner))
@@ -71,7 +73,8 @@ theorem chain_fix_layer (x : AnyObj) (os : List AnyObj) (ps : List LayerInfo) (r
       · exact .inl (by omega)
       · exact .inr ⟨by omega, by rw [h, hc, hc]⟩
   have hstep := fun (ps' : List LayerInfo) (hps : ParentSim ps ps') =>
-    fix_all ps ps' x os os'' hok hcov hna hpay (splice region x.hdr io) io (by rw [hsl]; omega) hin hiol out hw n k hn hk
+    fix_all ps ps' x os os'' hok hcov hna hpay (splice region x.hdr io) io (by rw [hsl]; omega) hin hiol hnil hraw hpos hnostp
+      out hw n k hn hk
       x' inner hp hps hkeys e2 he2' hsz2
   have hsize := (hstep ps (ParentSim.refl ps)).1
   refine ⟨keys_cons hv os os'' hkeys, (if e2 = 0 then 0 else k), by split <;> simp, ?_, ?_⟩
@@ -141,7 +144,8 @@ theorem chain_fix_aux_all (os : List AnyObj) : ∀ (x : AnyObj) (ps : List Layer
         have hname := name_of_entry n x _ hn hok
         refine ⟨[x', .raw (p ++ List.replicate (cut x (x.trl (sizeOfStack [.raw p]) + k)) 0)],
           by simp [parseChain, hname.1, hp], ?_⟩
-        exact chain_fix_layer x [.raw p] ps region hok hcx.1 hcx.2 hpay hlen p hio (by rw [hsz]) out hser n k hn hk x' _ hp hv _
+        exact chain_fix_layer x [.raw p] ps region hok hcx.1 hcx.2 hpay hlen p hio (by rw [hsz]) (fun h => by cases h)
+          (fun q h => by cases h; rfl) (fun y r h => by cases h) (fun s r h => by cases h) out hser n k hn hk x' _ hp hv _
           (reFix_raw _ p _)
       | _ => cases ha
     | false =>
@@ -153,6 +157,19 @@ theorem chain_fix_aux_all (os : List AnyObj) : ∀ (x : AnyObj) (ps : List Layer
       rcases ih a (liOfA x (a :: r) :: ps) (innerOf (semOfA ps x (a :: r)) region) ha hst'
         (fun o ho => hcv o (List.mem_cons_of_mem _ ho)) hpay' (by rw [hil, sizeOf_semsAuxA]) with ⟨io, hio, hiol, hfn, hpar⟩
       have hapos := hdrA_pos a r hoka
+      have hnostp : ∀ s r', a :: r ≠ .app (.stp s) :: r' := by
+        intro s r' h
+        injection h with h1 h2
+        subst h1; subst h2
+        have hlk : LinkAll (.app (.stp s)) r := hoka.2.2.2
+        have hr : r = [] := by
+          cases hn' : nextA r with
+          | none => exact nextA_none hn'
+          | raw p => simp only [LinkAll, hn'] at hlk
+          | obj y t => simp only [LinkAll, hn'] at hlk
+          | bad => simp only [LinkAll, hn'] at hlk
+        subst hr
+        exact hpay' rfl
       have hiopos : 0 < io.length := by
         rw [hiol, hil, sizeOfStack_cons]; omega
       rcases chain_step_all x (a :: r) ps region hok hlen io hio (by rw [hiol, hil]) (fun h => by cases h)
@@ -174,8 +191,8 @@ theorem chain_fix_aux_all (os : List AnyObj) : ∀ (x : AnyObj) (ps : List Layer
         (by rcases hpad' with h | h; exact .inl h; exact .inr ⟨by simp, h⟩) f (by rw [hiol, hil]; omega) with
         ⟨os'', hrec, hsub⟩
       refine ⟨_, L2.parseChain_cls f _ _ _ _ _ _ _ hname.1 hp hrec, ?_⟩
-      exact chain_fix_layer x (a :: r) ps region hok hcx.1 hcx.2 hpay hlen io hio (by rw [hiol, hil]) out hser n k hn hk x' _ hp
-        hv os'' hsub
+      exact chain_fix_layer x (a :: r) ps region hok hcx.1 hcx.2 hpay hlen io hio (by rw [hiol, hil]) (fun h => by cases h)
+        (fun q h => by cases h; cases ha) (fun _ _ _ => hiopos) hnostp out hser n k hn hk x' _ hp hv os'' hsub
 
 /-- **second-serialization fixed point, whole packets of the covered families, under any entry name**: for every
     representable stack (`StackableAll`) of covered classes (`CovAll`) whose innermost payload is non-empty, parsing the
